@@ -35,7 +35,7 @@ CHECKS = {
                      "combination of first / continuation / last performative lengths; the stream reader emits the original frames under every partition "
                      "(liveness under fairness). Conformance: ~1200 performative x channel x max-frame-size x payload-length cases are sent through "
                      "Transport's Sink and ~1400 partitions of a five-frame stream through its Stream; FramingTrace.tla decodes each performative with the "
-                     "reference decoder and evaluates the same clauses on what the code wrote / read.",
+                     "reference decoder and evaluates the same clauses on what the code wrote / read. Endpoint-level stage: single-frame deliveries of 300 .. 3000 bytes from a peer that advertised max-frame-size 512 to a live endpoint that advertised 4096 (the size in an open limits what its sender receives, not what it sends): they are decoded and handed over (C10_Exact, C10_NoSpuriousError, C12_NoSpontaneousError).",
                 note="trusted: harness frame-header parser, performative extent finder and payload pattern; Transport is driven through its public bind / set_*_max_frame_size API"),
     "C07": dict(technique="inductive invariant of the unbounded counter model FlowInd.tla discharged by Apalache (base, step, safety; two refuted variants as negative controls); TLC model check of session flow control in serial arithmetic modulo 8 (SessionWin.tla, safety + leads-to) incl. the negative check of the code's deviation; TLC-enumerated send / flow / incoming-transfer scripts (SessGen.tla) executed lock-step against the real client for id spaces at 0, 2^31 and just below 2^32; traces validated by the TLA+ observer; plus long mixed histories sampled by TLC's simulation mode from a state-aware generator (MixGen.tla), executed and validated the same way",
                 design="4/C07",
